@@ -121,7 +121,11 @@ pub struct WorldState {
     pub supply: BTreeMap<String, T>,
     pub created: Vec<(String, String)>,
     pub packets: Vec<WPacket>,
+    /// next packet sequence of the first channel in use ("home"); IBC numbers packets per channel, so every other
+    /// channel has its own counter in `chan_seq`, starting at 1
     pub next_seq: u64,
+    pub home_channel: Option<String>,
+    pub chan_seq: BTreeMap<String, u64>,
     pub remote: BTreeMap<(String, String), T>,
     pub oracle_posts: Vec<(String, String)>,
 }
@@ -153,7 +157,7 @@ impl Chain {
             deps: OwnedDeps { storage: MockStorage::default(), api: MockApi::default(), querier: MockQuerier::default(), custom_query_type: std::marker::PhantomData },
             env,
             who,
-            w: WorldState { bank: BTreeMap::new(), supply: BTreeMap::new(), created: vec![], packets: vec![], next_seq: 1, remote: BTreeMap::new(), oracle_posts: vec![] },
+            w: WorldState { bank: BTreeMap::new(), supply: BTreeMap::new(), created: vec![], packets: vec![], next_seq: 1, home_channel: None, chan_seq: BTreeMap::new(), remote: BTreeMap::new(), oracle_posts: vec![] },
             fail_submit: vec![],
             debits: vec![],
             trace: vec![],
@@ -412,8 +416,20 @@ impl Chain {
                 }
                 match (failure, sub.clone()) {
                     (None, s) => {
-                        let sq = self.w.next_seq;
-                        self.w.next_seq += 1;
+                        // packet sequences are allocated per channel (ibc-go: nextSequenceSend of the port/channel pair)
+                        if self.w.home_channel.is_none() {
+                            self.w.home_channel = Some(self.w.packets.first().map(|p| p.channel.clone()).unwrap_or_else(|| channel.clone()));
+                        }
+                        let sq = if self.w.home_channel.as_deref() == Some(channel.as_str()) {
+                            let q = self.w.next_seq;
+                            self.w.next_seq += 1;
+                            q
+                        } else {
+                            let e = self.w.chan_seq.entry(channel.clone()).or_insert(1);
+                            let q = *e;
+                            *e += 1;
+                            q
+                        };
                         *seq = Some(sq);
                         self.w.packets.push(WPacket { seq: sq, channel: channel.clone(), denom: denom.clone(), amount: amount.clone(), sender: sender.clone(), receiver: receiver.clone(), state: PState::Sent, memo: memo.clone(), timeout_ns: *timeout_ns });
                         if let Some((id, on)) = s {
